@@ -260,7 +260,7 @@ func FindAllBuildFiles(config *core.Configuration, rootPath, prefix string) <-ch
 			}
 			// Check against blacklist
 			for _, dir := range config.Parse.BlacklistDirs {
-				if dir == basename || strings.HasPrefix(name, dir) {
+				if dir == basename || name == dir || strings.HasPrefix(name, dir+"/") {
 					return filepath.SkipDir
 				}
 			}
